@@ -23,7 +23,7 @@ CURSOR_WRITERS = {
 SECONDARY_WRITERS = {
     "input::InputRef::emit": ({"push"}, "append one non-fatal error"),
     "input::InputRef::rewind": ({"truncate"}, "drop emissions of the abandoned attempt"),
-    "input::InputRef::with_input": ({"drain", "extend"}, "move inner emissions to the outer list"),
+    "input::InputRef::with_input": ({"drain", "extend", "push"}, "move inner emissions to the outer list (SUB-INPUT pins the one effect: each drained error pushed once)"),
     "input::InputOwn::into_errs": ({"into_iter"}, "hand the list to the caller at the end of the parse"),
     "input::Errors::secondary_errors_since": ({"deref_mut"}, "mutable view of the tail (Labelled annotates contexts in place)"),
 }
